@@ -340,6 +340,11 @@ func doProperty(repo, verif, property, tier string, seed int) int {
 			}
 		}
 		fmt.Printf("canaries: %d registered for %s, %d applicable, %d detected, %d silent as expected\n", len(canaryResults), property, canApplicable, canDetected, canSilentOK)
+		// keep the sweep's outcome next to the evidence (the quick tier rewrites evidence/<id>.json)
+		if b, err := json.MarshalIndent(canaryResults, "", " "); err == nil {
+			os.MkdirAll(filepath.Join(verif, "evidence", "canaries"), 0o755)
+			os.WriteFile(filepath.Join(verif, "evidence", "canaries", property+".json"), append(b, '\n'), 0o644)
+		}
 	}
 	for i, k := range known {
 		if usedKnown[i] {
